@@ -14,5 +14,6 @@ for n in names:
         r = subprocess.run(["/verif/tools/seedtest.py", os.path.join(d, "patch.diff"), c], capture_output=True, text=True)
         det[c] = [l for l in r.stdout.splitlines() if l.startswith(c) or "PATCH FAILED" in l][:1]
     m["detected_by"] = det
+    m.setdefault("first_detected_by", det)
     json.dump(m, open(mf, "w"), indent=1)
     print(n, det, flush=True)
